@@ -87,6 +87,13 @@ def write_epub(book: dict, opf_dir: str = "OEBPS") -> bytes:
     man, spine, files = "", "", {}
     pre = (opf_dir.strip("/") + "/") if opf_dir else ""       # package file at the root, one or several directories deep
     for n, ch in enumerate(book["chapters"], start=1):
+        if ch == "gap":
+            # a spine item that is not an XHTML chapter: an SVG page (odd positions) or a dangling idref (even)
+            if n % 2:
+                files[f"{pre}page{n}.svg"] = b'<svg xmlns="http://www.w3.org/2000/svg" width="10" height="10"/>'
+                man = f'<item id="ch{n}" href="page{n}.svg" media-type="image/svg+xml"/>' + man
+            spine += f'<itemref idref="ch{n}"/>'
+            continue
         files[f"{pre}ch{n}.xhtml"] = write_html(ch, xhtml=True)
         man = f'<item id="ch{n}" href="ch{n}.xhtml" media-type="application/xhtml+xml"/>' + man   # manifest order != spine order
         spine += f'<itemref idref="ch{n}"/>'
